@@ -461,12 +461,13 @@ SU_vector SU_vector::UDaggerTransform(gsl_matrix_complex* em) const{
 std::pair<std::unique_ptr<gsl_vector,void (*)(gsl_vector*)>,
 std::unique_ptr<gsl_matrix_complex,void (*)(gsl_matrix_complex*)>>
 SU_vector::GetEigenSystem(bool order) const{
-  gsl_vector * eigenvalues = gsl_vector_alloc(dim);
-  gsl_matrix_complex * eigenvectors = gsl_matrix_complex_alloc(dim,dim);
   //All dimensions use the Hermitian eigensolver: the closed-form solution formerly used
   //for dimension 3 divides by quantities which vanish for diagonal, degenerate or sparse
   //matrices (projectors, the identity, single generators), producing NaNs.
+  //The matrix is obtained first: this throws for an empty vector, before anything is allocated.
   auto matrix=(*this).GetGSLMatrix();
+  gsl_vector * eigenvalues = gsl_vector_alloc(dim);
+  gsl_matrix_complex * eigenvectors = gsl_matrix_complex_alloc(dim,dim);
   gsl_eigen_hermv_workspace * ws = gsl_eigen_hermv_alloc(dim);
   gsl_eigen_hermv(matrix.get(),eigenvalues,eigenvectors,ws);
   gsl_eigen_hermv_free(ws);
